@@ -1,8 +1,10 @@
 """C17 File readers return exactly the stored numbers at the right configurations (openQCD binary formats)."""
 import itertools
 
-from props import readers
-from props.readers import HARNESSES, h_read  # noqa
+from props import readers, sfcf
+from props.readers import h_read  # noqa
+
+HARNESSES = dict(read=h_read, sfcf=sfcf.h_read)
 
 PROPERTY = 'C17'
 OPTS = dict(timeout=60000, maxpaths=200)
@@ -46,6 +48,18 @@ def jobs(tier, seed):
         add(fmt=fmt, reps=['r0', 'r1'], nrec=[8, 7], first=[1, 1], step=[1, 1], sel=dict(r_start=[3, None], r_stop=[8, 6]))
     add(fmt='rwms16', reps=['r0'], nrec=[12], first=[1], step=[1], sel=dict(r_start=[2], r_stop=[12], r_step=2))
     add(fmt='rwms20', reps=['r0'], nrec=[11], first=[1], step=[1], sel=dict(r_stop=[11], r_step=2))
+    # sfcf text formats: compact, folder and appended layout; every requested correlator kind; shuffled listings; replica numbers r2 / r10
+    R2 = dict(reps=['r0', 'r1'], cfgs=[[1, 2, 3, 4, 5], [2, 4, 6, 8, 10, 12]])
+    R3 = dict(reps=['r2', 'r10', 'r1'], cfgs=[[1, 2, 3, 4, 5], [1, 2, 3, 4, 5, 6], [11, 12, 13, 14, 15]])
+    for lay in 'coa':
+        names = ['f_A', 'f_1', 'F_V0']
+        for req in (('f_A', 0, None), ('f_A', 1, None), ('f_1', 0, 0), ('f_1', 0, 1), ('F_V0', 0, 1)):
+            J.append(dict(harness='sfcf', params=dict(layout=lay, names=names, req=list(req), perm=1 + len(req[0]) + req[1], **R2)))
+        J.append(dict(harness='sfcf', params=dict(layout=lay, names=names, req=['F_V0', 0, 0], perm=2, im=True, T=3, **R2)))
+        for perm in (0, 5, 11):
+            J.append(dict(harness='sfcf', params=dict(layout=lay, names=['f_A', 'f_1'], req=['f_A', 0, None], perm=perm, **R3)))
+        if lay != 'a':
+            J.append(dict(harness='sfcf', params=dict(layout=lay, names=['f_A', 'f_1'], req=['f_A', 0, None], perm=4, files=True, reps=['r0', 'r1'], cfgs=[list(range(1, 11)), list(range(1, 12))])))
     return J
 
 
@@ -71,13 +85,13 @@ CANARIES = [
 ]
 
 META = dict(
-    explanation='C17 (openQCD binary formats): read_rwms (1.4 / 1.6 / 2.0 incl. _read_array_openQCD2), read_qtop / _read_flow_obs (openQCD and sfqcd flow files), read_ms5_xsf, _find_files and sort_names run '
+    explanation='C17 (openQCD binary formats and sfcf text formats): read_sfcf (2.0 / 2.0c / 2.0a) runs on a tagged-token text model (props/sfcf.py: every stored number is a distinct decimal token standing for a symbol; regular expressions, line counting, fnmatch and sorting run on the concrete text; listings come from an in-memory tree in shuffled order). read_rwms (1.4 / 1.6 / 2.0 incl. _read_array_openQCD2), read_qtop / _read_flow_obs (openQCD and sfqcd flow files), read_ms5_xsf, _find_files and sort_names run '
                 'on a typed-buffer file model in which every stored double is a distinct symbol (a mis-assignment can never cancel). The observables returned must carry, per replica name derived from '
                 'the file name and per configuration number, exactly the documented reduction of the symbols of that record (product over factors of the source average of exp(-x), timeslice sum at the '
                 'selected flow time, real / imaginary part of the selected correlator).',
     bounds='1-3 replicas (suffixes with different digit counts, every / 3 directory-listing permutations), 5-12 records, first configuration and spacing from {1,2,3,4,10}, 1-2 factors, 1-3 sources, 1-2 reweighting '
-           'factors, 3 flow times x 3 timeslices, 5 of the 12 ms5_xsf correlators; r_start / r_stop / r_step selections.',
-    outside=['sfcf text formats and Hadrons hdf5 (text / h5py parsers: numbers cannot pass them symbolically) - not applicable', 'extract_t0 / extract_w0 beyond their fit contract', 'real file system'],
-    stubs=['open / fp.read / struct.unpack / os.walk -> typed-buffer file model', 'numpy shim', 'exp uninterpreted'],
+           'factors, 3 flow times x 3 timeslices, 5 of the 12 ms5_xsf correlators; r_start / r_stop / r_step selections. sfcf: 2-3 replicas (r2 / r10 / r1), 5-11 configurations, T = 2-3, correlators f_A (bi, wf 0/1), f_1 (bb, wf2 0/1), F_V0 (bib, wf2 0/1), real / imaginary part, explicit file lists.',
+    outside=['Hadrons hdf5 (h5py: numbers cannot pass it symbolically) - not applicable', 'sfcf version 0.0, read_sfcf_multi with several names in one call', 'extract_t0 / extract_w0 beyond their fit contract', 'real file system'],
+    stubs=['open / fp.read / struct.unpack / os.walk -> typed-buffer file model', 'sfcf: open / os.walk -> in-memory text tree, float -> token table', 'numpy shim', 'exp uninterpreted'],
     assumptions=[],
 )
